@@ -202,6 +202,10 @@ func BuildEngine(c *Case, reg prometheus.Registerer) (queryEngine, []*mstore.Sto
 	return engine.NewDistributedEngine(eo, api.NewStaticEndpoints(remotes)), stores, nil
 }
 
+// AfterBuild, if set, runs between the construction of the engine of a case and the
+// creation of its query (e.g. to construct another engine in the same process).
+var AfterBuild func()
+
 // RunEngine executes one case on the engine under test in free mode.
 func RunEngine(c *Case, st *mstore.Store) *Outcome {
 	return RunEngineCtx(context.Background(), c, st, nil)
@@ -241,6 +245,9 @@ func RunEngineCtx(ctx context.Context, c *Case, st *mstore.Store, withQuery func
 	if err != nil {
 		out.Res.CreateErr = "harness: " + err.Error()
 		return out
+	}
+	if AfterBuild != nil {
+		AfterBuild()
 	}
 	var q promql.Query
 	func() {
